@@ -160,3 +160,105 @@ for _nm, _gen, _tgt in (
                 c.crosscheck = 0
 
         _mk2()
+
+
+# ------------------------------------------------------------------------------------------ further value types
+from pyvc.contracts import Gen, Obj, OneOf  # noqa: E402
+
+from .gens import InstantG, YmdG  # noqa: E402
+
+
+class AnnualDateG(Gen):
+    """month/day of the ISO calendar packed like a date of year 1 (slots class: one field)"""
+
+    def make(self, name, b):
+        from pyvc import sym
+        from pyvc.values import SObj
+        from pyoda_time._annual_date import AnnualDate
+        from pyoda_time._year_month_day import _YearMonthDay
+        from specs import packmodel
+
+        m, d = sym.var_int(f"{name}.m"), sym.var_int(f"{name}.d")
+        b.assume(And(m >= 1, m <= 12, d >= 1, d <= 31))
+        ymd = SObj(_YearMonthDay, {"_YearMonthDay__value": packmodel.pack_ymd(1, m, d), "$y": 1, "$m": m, "$d": d}, owner=-1, tag=name + ".ymd")
+        return SObj(AnnualDate, {"_AnnualDate__value": ymd}, owner=-1, tag=name)
+
+
+def _ad(x):
+    v = V.fld(x, "_AnnualDate__value")
+    return V.fld(v, "$m") * 32 + V.fld(v, "$d")
+
+
+_eq_hash("AnnualDate", AnnualDateG, lambda a, x, y: _ad(x) == _ad(y))
+
+
+@contract(H + "order_ops", "C12", name="AnnualDate: <, <=, >, >=, compare_to agree with the order by (month, day)")
+def _(c):
+    c.arg("x", AnnualDateG()).arg("y", AnnualDateG())
+
+    def post(a, r):
+        lt, le, gt, ge, cmp_, eq = r
+        kx, ky = _ad(a.x), _ad(a.y)
+        return And(Iff(lt, kx < ky), Iff(le, kx <= ky), Iff(gt, kx > ky), Iff(ge, kx >= ky), V.sign_agrees(cmp_, kx - ky), Iff(eq, kx == ky))
+
+    c.returns(post)
+    c.crosscheck = 0
+
+
+class OffsetDateG(Gen):
+    def __init__(self, cal="cal"):
+        self.cal = cal
+
+    def make(self, name, b):
+        from pyvc.values import SObj
+        from pyoda_time._offset_date import OffsetDate
+
+        return SObj(OffsetDate, {"_OffsetDate__date": LocalDateG(self.cal).make(name + ".date", b), "_OffsetDate__offset": OffsetG().make(name + ".offset", b)}, owner=-1, tag=name)
+
+
+_eq_hash(
+    "OffsetDate",
+    OffsetDateG,
+    lambda a, x, y: And(ld_dse(a, V.fld(x, "_OffsetDate__date")) == ld_dse(a, V.fld(y, "_OffsetDate__date")), V.off_seconds(V.fld(x, "_OffsetDate__offset")) == V.off_seconds(V.fld(y, "_OffsetDate__offset"))),
+    abstract=True,
+)
+
+
+class ZoneIntervalG(Gen):
+    def make(self, name, b):
+        from pyvc.values import SObj
+        from pyoda_time.time_zones._zone_interval import ZoneInterval
+
+        nm = b.pick(name + ".name", ["EST", "EDT"])
+        return SObj(
+            ZoneInterval,
+            {
+                "_ZoneInterval__name": nm,
+                "_ZoneInterval__raw_start": InstantAnyG().make(name + ".start", b),
+                "_ZoneInterval__raw_end": InstantAnyG().make(name + ".end", b),
+                "_ZoneInterval__wall_offset": OffsetG().make(name + ".wall", b),
+                "_ZoneInterval__savings": OffsetG().make(name + ".savings", b),
+            },
+            owner=-1,
+            tag=name,
+        )
+
+
+def _zi_same(a, x, y):
+    g = lambda o, k: V.fld(o, "_ZoneInterval__" + k)  # noqa: E731
+    return And(
+        g(x, "name") == g(y, "name"),
+        V.inst_ns(g(x, "raw_start")) == V.inst_ns(g(y, "raw_start")),
+        V.inst_ns(g(x, "raw_end")) == V.inst_ns(g(y, "raw_end")),
+        V.off_seconds(g(x, "wall_offset")) == V.off_seconds(g(y, "wall_offset")),
+        V.off_seconds(g(x, "savings")) == V.off_seconds(g(y, "savings")),
+    )
+
+
+_eq_hash("ZoneInterval", ZoneIntervalG, _zi_same)
+
+
+for _nm, _gen, _key in (("Duration", DurationG, lambda a, x: V.ns(x)), ("Instant", InstantG, lambda a, x: V.inst_ns(x)), ("Offset", OffsetG, lambda a, x: V.off_seconds(x)), ("LocalTime", LocalTimeG, lambda a, x: V.lt_nanos(x))):
+    _order(_nm, _gen, _key, abstract=False)
+
+_ = (Obj, OneOf, YmdG)
